@@ -464,6 +464,18 @@ def _status(EX, e: Optional[BaseException]) -> str:
 
 def run_case(cid: str, case: Dict[str, Any]) -> List[str]:
     """case: U [types], ops [(kind, [types])]"""
+    from .read_corr import cpu_guard, Hang, HANGS, HANG_BREAKER, note_hang
+    if HANGS[0] >= HANG_BREAKER:
+        raise Hang("skipped: this process has already seen %d cases that did not return" % HANGS[0])
+    try:
+        with cpu_guard(4.0):    # an endless loop in the code under test ends the case (`Hang`), not the harness
+            return _run_case(cid, case)
+    except Hang:
+        note_hang()
+        raise
+
+
+def _run_case(cid: str, case: Dict[str, Any]) -> List[str]:
     from pyrtma import exceptions as EX
     logging.getLogger().setLevel(logging.CRITICAL + 10)
     pr = Pair()
@@ -835,6 +847,18 @@ SUB_CALL = {"subscribe": "subscribe", "unsubscribe": "unsubscribe", "pause": "pa
 
 def run_life_case(cid: str, case: Dict[str, Any]) -> List[str]:
     """case: created, others [(req id, allow)], burn, U [types], ops [(kind, args...)]"""
+    from .read_corr import cpu_guard, Hang, HANGS, HANG_BREAKER, note_hang
+    if HANGS[0] >= HANG_BREAKER:
+        raise Hang("skipped: this process has already seen %d cases that did not return" % HANGS[0])
+    try:
+        with cpu_guard(4.0):
+            return _run_life_case(cid, case)
+    except Hang:
+        note_hang()
+        raise
+
+
+def _run_life_case(cid: str, case: Dict[str, Any]) -> List[str]:
     from pyrtma import exceptions as EX
     logging.getLogger().setLevel(logging.CRITICAL + 10)
     lp = LifePair(case["created"], case.get("others", ()), case.get("burn", 0))
